@@ -9,10 +9,10 @@ NOTE = ("Trusted: Lean kernel + axioms propext/Classical.choice/Quot.sound (audi
 
 CLAIMS = {
  'C01': ("Theorem lex_eq_spec: for every (graph, definition) pair accepted by the proved validator validB and every input, the generated lexer's item sequence equals the reference maximal-munch/priority lexer, whose meaning in terms of Matches is given by scan_some/scan_finds; validB is run on the graph the real derive produces for every corpus definition; the interpreter model is tied to the compiled lexers (4 configurations) by a transition-directed differential run.",
-         "look-around patterns are outside the spec-level theorems (graph-level theorems and ties only); definitions are sampled.",
+         "definitions with look-around assertions are certified by the contextual chain (validCB + liveCertB, lex_eq_specC, C01_look_*; lookHolds is a hand transcription of regex-automata's LookMatcher tied by the PikeVM reference run); definitions are sampled.",
          "Lean theorem + proved per-definition certificate checker + model/implementation correspondence"),
  'C02': ("Same chain as C01; lex_eq_spec covers error items (end = max(stop offset, start+1) rounded up by find_boundary, restart at the end); scan_none states where an attempt stops (first byte after which no pattern is viable) and dead_stops that the graph walk cannot go past it; findBoundary_spec.",
-         "look-around patterns outside spec-level theorems; error *values* supplied by user callbacks are executed, not modelled.",
+         "look-around definitions: C02_look_error_stop via validCB + liveCertB (viability table proved exact); error *values* supplied by user callbacks are executed, not modelled.",
          "Lean theorem + proved certificate checker + correspondence on unmatched runs / truncated tokens"),
  'C03': ("graphLex_tiles: for every graph satisfying the decidable predicate WF (proved checker wfB, run on every captured graph) and every input, lexing terminates, items are non-empty, strictly increasing, inside the input and end at its length; win_none + Valid: an accepted (validated) definition has no nullable pattern; every corpus definition with a nullable leaf (Lean nullable on the captured HIR) must be rejected by the real derive; tiling predicate applied directly to every stream of the compiled lexers.",
          "callbacks that bump are excluded from graphLex_tiles (NoBump).",
@@ -30,7 +30,7 @@ CLAIMS = {
          "the equality walk(prefix)=specLexP is checked per input (correspondence), its theorem is not yet proved; look-around definitions: prefix relation only.",
          "model + reference partial lexer + all-split-points correspondence"),
  'C08': ("tie_witness / tieFreeB_sound: the Lean tie search over derivative vectors answers either with a witness string on which two patterns share the top priority, or with a closure proving that no string is matched by two top-priority patterns; both answers are checked by proved validators; the real derive's Disambiguation diagnostics (and the leaves they name) must agree in both directions for every corpus definition.",
-         "look-around definitions and definitions rejected earlier (nullable pattern) are outside the comparison; definitions are sampled.",
+         "look-around patterns are decided by the contextual versions (tieC_witness / tieFreeCB_sound: a tie is a string in a context); definitions rejected earlier (nullable pattern, no universal start state) are outside the comparison; definitions are sampled.",
          "Lean theorems (sound + complete tie decision per definition) + correspondence with the derive's diagnostics"),
  'C09': ("Hir.complexity is the documented rule as a Lean function on the captured HIR; complexity_le_twice_len: every string matched by a pattern is at least half its default priority long, hence literal_never_beaten; recorded priorities of every leaf (regex, skip, token, explicit) compared with the rule.",
          "the winner/ambiguity outcome for literal-vs-regex pairs is C01/C08.",
